@@ -4,6 +4,7 @@
 package main
 
 import (
+	"encoding/json"
 	"fmt"
 	"sort"
 	"strings"
@@ -27,6 +28,21 @@ var cfg = vrt.Config{Preempt: coresim.InterComponent, NoLockPoints: true, FreeSw
 // workflows: A uses hostA (detector TST), B uses hostB (ITS), C uses hostA+hostC (TST): C conflicts with A.
 var wfOf = map[string]string{"A": "c04-A", "B": "c04-B", "C": "c04-C"}
 
+// detectors an environment includes: what its hosts imply (coresim.Inventory) or, for the "x" variants,
+// the list the user passes as `detectors` (TRG has no hosts of its own: only an override can name it)
+var detsOf = map[string][]string{"A": {"TST"}, "B": {"ITS"}, "C": {"TST"}, "Ax": {"TST", "TRG"}, "Bx": {"ITS", "TRG"}}
+
+func intersects(a, b []string) bool {
+	for _, x := range a {
+		for _, y := range b {
+			if x == y {
+				return true
+			}
+		}
+	}
+	return false
+}
+
 // ---- monitors ------------------------------------------------------------------------
 
 type sys struct {
@@ -38,8 +54,9 @@ type sys struct {
 	// ownership watch (concurrent phase): task -> environment it was last seen locked by, and the
 	// environments some caller has asked to destroy
 	owned      map[string]string
-	others     map[string]string // sequential phase: snapshots of the environments the current operation is not about
-	slow       bool              // concurrent phase: launches take a virtual second to report TASK_RUNNING
+	dets       map[string][]string // slot -> detectors the environment created in it includes
+	others     map[string]string   // sequential phase: snapshots of the environments the current operation is not about
+	slow       bool                // concurrent phase: launches take a virtual second to report TASK_RUNNING
 	destroying map[string]bool
 }
 
@@ -136,6 +153,21 @@ func (s *sys) invariants() {
 			}
 		}
 	}
+	// every detector of a live environment is reported active (GetActiveDetectors RPC)
+	active := map[string]bool{}
+	for _, d := range s.w.ActiveDetectors() {
+		active[d] = true
+	}
+	for slot, id := range s.ids {
+		if _, ok := envs[id]; !ok {
+			continue
+		}
+		for _, d := range s.dets[slot] {
+			if !active[d] {
+				s.fail("detector-in-use-not-reported-active:"+d, "environment %s includes %v, GetActiveDetectors says %v", slot, s.dets[slot], s.w.ActiveDetectors())
+			}
+		}
+	}
 	// tasks of live environments' role trees pairwise disjoint
 	seen := map[string]string{}
 	dets := map[string]string{}
@@ -217,31 +249,36 @@ func (s *sys) apply1(op string) bool {
 	}
 	switch {
 	case strings.HasPrefix(op, "create"):
-		slot := op[len(op)-1:]
+		slot, variant := op[6:7], op[7:]
 		if _, _, ok := live(slot); ok {
 			return false
 		}
-		// who holds the detectors this workflow needs?
+		// who holds a detector this environment needs? (sets: what the hosts imply, or the user's `detectors` override)
+		need := detsOf[slot+variant]
 		holder := ""
-		if slot == "C" {
-			if id, _, ok := live("A"); ok {
+		for _, sl := range []string{"A", "B", "C"} {
+			if id, _, ok := live(sl); ok && intersects(s.dets[sl], need) {
 				holder = id
 			}
 		}
-		if slot == "A" {
-			if id, _, ok := live("C"); ok {
-				holder = id
-			}
+		var vars map[string]string
+		if variant == "x" {
+			js, _ := json.Marshal(need)
+			vars = map[string]string{"detectors": string(js)}
 		}
 		before := ""
 		if holder != "" {
 			before = s.snapshot(holder)
 		}
 		s.snapshotOthers(slot)
-		id, _, err := s.w.Create(wfOf[slot], nil)
+		id, _, err := s.w.Create(wfOf[slot], vars)
 		vrt.Quiesce("op")
 		if err == nil {
 			s.ids[slot] = id
+			if s.dets == nil {
+				s.dets = map[string][]string{}
+			}
+			s.dets[slot] = need
 			if holder != "" {
 				s.fail("created-despite-busy-detector", "%s created while %s holds its detector", slot, holder)
 			}
@@ -337,12 +374,16 @@ func (s *sys) key() string {
 				}
 			}
 		}
-		parts = append(parts, fmt.Sprintf("%s=%s/%d/%d", slot, st, n, orphans))
+		dk := ""
+		if st != "-" {
+			dk = strings.Join(s.dets[slot], "+")
+		}
+		parts = append(parts, fmt.Sprintf("%s=%s/%d/%d/%s", slot, st, n, orphans, dk))
 	}
 	return strings.Join(parts, " ") + fmt.Sprintf(" roster=%d", len(owners))
 }
 
-var ops = []string{"createA", "createB", "createC", "startA", "stopA", "resetA", "startB", "destroyA", "destroyForceA", "destroyKeepA", "destroyB", "destroyC", "cleanupAll", "cleanupIdsA", "cleanupIdsB"}
+var ops = []string{"createA", "createB", "createC", "createAx", "createBx", "startA", "stopA", "resetA", "startB", "destroyA", "destroyForceA", "destroyKeepA", "destroyB", "destroyC", "cleanupAll", "cleanupIdsA", "cleanupIdsB"}
 
 func execHistory(hist []int) (key string, applicable bool, viol []vrt.Violation) {
 	coresim.ResetStore()
